@@ -1473,8 +1473,8 @@ class HplFunctionCall(HplExpression):
         return self.but(arguments=args)
 
     def __str__(self) -> str:
-        args = tuple(arg.data_type for arg in self.arguments)
-        return f'{self.function.name}{args}'
+        args = ', '.join(str(arg) for arg in self.arguments)
+        return f'{self.function.name}({args})'
 
 
 ###############################################################################
